@@ -303,53 +303,56 @@ impl Responder {
         let mut rejected = Vec::new();
         // Republish all the dispute transactions of the reorged trackers.
         for uuid in reorged_trackers {
-            let tracker = dbm.load_tracker(uuid).unwrap();
-            let dispute_txid = tracker.dispute_tx.compute_txid();
-            // Try to publish the dispute transaction.
-            let should_publish_penalty = match carrier.send_transaction(&tracker.dispute_tx) {
-                ConfirmationStatus::InMempoolSince(_) => {
-                    log::info!(
-                        "Reorged dispute tx (txid={}) is in the mempool now",
-                        dispute_txid
-                    );
-                    true
-                }
-                // NOTE: We aren't fully synced with the bitcoind backend so can't check if the dispute tx is in our txindex.
-                ConfirmationStatus::IrrevocablyResolved => {
-                    log::info!(
-                        "Reorged dispute tx (txid={}) is already on the strong chain",
-                        dispute_txid
-                    );
-                    true
-                }
-                ConfirmationStatus::Rejected(e) => {
-                    log::error!(
-                        "Reorged dispute tx (txid={}) rejected during rebroadcast (reason: {e:?})",
-                        dispute_txid
-                    );
-                    false
-                }
-                x => unreachable!(
-                    "`Carrier::send_transaction` shouldn't return this variant: {:?}",
-                    x
-                ),
-            };
+            // The tracker may be gone by now (e.g. its owner's subscription got outdated in this very block,
+            // the Gatekeeper is notified first), there is nothing left to republish for it.
+            if let Some(tracker) = dbm.load_tracker(uuid) {
+                let dispute_txid = tracker.dispute_tx.compute_txid();
+                // Try to publish the dispute transaction.
+                let should_publish_penalty = match carrier.send_transaction(&tracker.dispute_tx) {
+                    ConfirmationStatus::InMempoolSince(_) => {
+                        log::info!(
+                            "Reorged dispute tx (txid={}) is in the mempool now",
+                            dispute_txid
+                        );
+                        true
+                    }
+                    // NOTE: We aren't fully synced with the bitcoind backend so can't check if the dispute tx is in our txindex.
+                    ConfirmationStatus::IrrevocablyResolved => {
+                        log::info!(
+                            "Reorged dispute tx (txid={}) is already on the strong chain",
+                            dispute_txid
+                        );
+                        true
+                    }
+                    ConfirmationStatus::Rejected(e) => {
+                        log::error!(
+                            "Reorged dispute tx (txid={}) rejected during rebroadcast (reason: {e:?})",
+                            dispute_txid
+                        );
+                        false
+                    }
+                    x => unreachable!(
+                        "`Carrier::send_transaction` shouldn't return this variant: {:?}",
+                        x
+                    ),
+                };
 
-            if should_publish_penalty {
-                // Try to rebroadcast the penalty tx.
-                if let ConfirmationStatus::Rejected(_) =
-                    carrier.send_transaction(&tracker.penalty_tx)
-                {
-                    rejected.push(uuid)
+                if should_publish_penalty {
+                    // Try to rebroadcast the penalty tx.
+                    if let ConfirmationStatus::Rejected(_) =
+                        carrier.send_transaction(&tracker.penalty_tx)
+                    {
+                        rejected.push(uuid)
+                    } else {
+                        // The penalty might actually be confirmed (ConfirmationStatus::IrrevocablyResolved) since bitcoind
+                        // is fully synced with the stronger chain already, but we won't know which block was it confirmed in.
+                        // We should see the tracker appear in the blockchain in the next couple of connected blocks.
+                        dbm.update_tracker_status(uuid, &ConfirmationStatus::InMempoolSince(height))
+                            .unwrap()
+                    }
                 } else {
-                    // The penalty might actually be confirmed (ConfirmationStatus::IrrevocablyResolved) since bitcoind
-                    // is fully synced with the stronger chain already, but we won't know which block was it confirmed in.
-                    // We should see the tracker appear in the blockchain in the next couple of connected blocks.
-                    dbm.update_tracker_status(uuid, &ConfirmationStatus::InMempoolSince(height))
-                        .unwrap()
+                    rejected.push(uuid)
                 }
-            } else {
-                rejected.push(uuid)
             }
         }
 
